@@ -13,6 +13,9 @@ from pathlib import Path
 VERIF = Path(__file__).resolve().parent.parent
 LEAN = VERIF / "lean"
 REPO = Path(os.environ.get("ODX_REPO", "/repo"))
+# evidence/<id>.json is the record of the last run on the tree under test; runs against a deliberately
+# mutated tree (harness/seeded.py) redirect it so that the committed record is never a mutant's
+EVIDENCE_DIR = Path(os.environ.get("VERIF_EVIDENCE_DIR") or (VERIF / "evidence"))
 STD_AXIOMS = {"propext", "Classical.choice", "Quot.sound"}
 FORBIDDEN = re.compile(r"\bsorry\b|\badmit\b|^\s*axiom\s|native_decide|bv_decide|implemented_by|\bunsafe\s|maxHeartbeats 0")
 
@@ -337,8 +340,8 @@ def finish(ctx, mod):
         "wall_s": round(time.time() - ctx.t0, 2),
         "violations": len(new_violations) + (1 if rc and not new_violations else 0),
     }
-    (VERIF / "evidence").mkdir(exist_ok=True)
-    (VERIF / "evidence" / f"{pid}.json").write_text(json.dumps(ev, indent=1, default=str) + "\n")
+    EVIDENCE_DIR.mkdir(parents=True, exist_ok=True)
+    (EVIDENCE_DIR / f"{pid}.json").write_text(json.dumps(ev, indent=1, default=str) + "\n")
     print(f"[{pid}] tier={ctx.tier} seed={ctx.seed} obligations={discharged}/{obligations} evaluations={ctx.evaluations} "
           f"distinct={len(ctx.distinct)} traces={ctx.traces} disagreements={len(ctx.disagreements)} "
           f"violations={len(new_violations)} known={len(seen_known)} wall={ev['wall_s']}s")
